@@ -282,10 +282,15 @@ func execPoolDecode(w *World, st *Step) {
 			}
 			w.try("C10", func() {
 				tmp := roaring.New()
-				if r.Bool() {
+				switch r.Intn(4) {
+				case 0:
 					tmp.ReadFrom(&simio.ChunkedReader{Data: c.data[:cut], Sizes: chunkSizes(r.U64()), ErrAt: -1})
-				} else {
+				case 1:
 					tmp.ReadFrom(&simio.ChunkedReader{Data: c.data, Sizes: chunkSizes(r.U64()), ErrAt: cut})
+				case 2:
+					tmp.FromBuffer(append([]byte(nil), c.data[:cut]...))
+				default:
+					tmp.UnmarshalBinary(append([]byte(nil), c.data[:cut]...))
 				}
 			})
 			w.St.Faults["failed-decode-before-concurrent-decodes"]++
